@@ -386,6 +386,11 @@ fn norm_limb() -> BoxedStrategy<u64> {
             _ => (row << 55) | (x >> 9),
         }),
         2 => any::<u64>().prop_map(|x| x | (1 << 63)),
+        // step edges of the single-limb reciprocal: d = floor((2^128 - 1) / (2^64 + v)) and neighbours
+        2 => (limb(), 0u64..5).prop_map(|(v, k)| {
+            let e = (u128::MAX / ((1u128 << 64) + v as u128)) as u64;
+            (e.wrapping_add(k).wrapping_sub(2)) | (1 << 63)
+        }),
     ]
     .boxed()
 }
@@ -481,8 +486,22 @@ fn body_2x1<const B: usize, const L: usize>(c: &Case, rec: &mut Rec) -> R {
 }
 
 fn norm_u128() -> BoxedStrategy<u128> {
-    (norm_limb(), limb(), 0u8..8)
+    (norm_limb(), limb(), 0u8..10)
         .prop_map(|(d1, d0, k)| {
+            if k >= 8 {
+                // a step edge of the reciprocal itself: the largest d whose reciprocal is still
+                // >= v, d = floor((2^192 - 1) / (2^64 + v)), or a neighbour; any off-by-one of
+                // reciprocal_2 shows at such an edge
+                let v = d0;
+                let top = (BigUint::one() << 192usize) - 1u32;
+                let e = top / ((BigUint::one() << 64usize) + v);
+                let e = e + (d1 % 5) - 2u32;
+                if let Some(x) = e.to_u128() {
+                    if x >> 127 == 1 {
+                        return x;
+                    }
+                }
+            }
             if k >= 6 {
                 // a tie of reciprocal_2's last correction step
                 if let Some((t1, t0)) = vcore::recip::find_tie(d1, 24, d0 as usize) {
@@ -619,7 +638,7 @@ fn main() {
     }
     let spec = PropSpec {
         id: "C14",
-        rule_text: "slice-level generators: numerator/divisor lengths 0..=12 independently (one pair in eight of the `div` rule stretched to up to 40 / 20 limbs) with zero padding at the high end, divisors of every effective length with 0..63 leading zero bits, numerators from 5 classes (independent boundary-alphabet limbs; q*d+r with extreme q,d,r; copying the divisor's leading limbs with perturbed lower limbs, equal and slightly smaller top window; powers of two aligned to a limb top after the normalising shift, -1, +1, with low noise); one divisor in six (>= 2 limbs) has normalised leading 128 bits solved onto the tie of reciprocal_2's last correction step (p == d1 after the carry; vcore::recip bisection) or one beside it; complete enumeration of all numerators of 1..=4 limbs x divisors of 1..=3 limbs over {0,1,2^63,MAX-1,MAX} for algorithms::div; each specialised kernel only on its documented domain; reciprocals on all 256 table rows (start, start+1, end, end-1, 3 scattered) x 6 low limbs, enumerated, plus a dense fixed sample of 2^20 divisors per table row (rule reciprocal_dense_rows, 2.7e8 single-limb reciprocals against u128 division), plus generated, half of the generated reciprocal_2 arguments solved onto the last correction step's tie (classes recip2:tie_*). Oracle: num-bigint / u128 quotient and remainder; floor((2^128-1)/d)-2^64 and floor((2^192-1)/d)-2^64. Non-trivial: divisor >= 2 limbs after trimming and non-zero quotient (div), >= 2 numerator limbs (n-by-1), non-zero quotient (n-by-2, n-by-m), every case for the fixed-size kernels and reciprocals (all inputs are normalised by construction); distinct by inputs. div_3x2_ref is excluded: its own doc comment says it is off by one.",
+        rule_text: "slice-level generators: numerator/divisor lengths 0..=12 independently (one pair in eight of the `div` rule stretched to up to 40 / 20 limbs) with zero padding at the high end, divisors of every effective length with 0..63 leading zero bits, numerators from 5 classes (independent boundary-alphabet limbs; q*d+r with extreme q,d,r; copying the divisor's leading limbs with perturbed lower limbs, equal and slightly smaller top window; powers of two aligned to a limb top after the normalising shift, -1, +1, with low noise); one divisor in six (>= 2 limbs) has normalised leading 128 bits solved onto the tie of reciprocal_2's last correction step (p == d1 after the carry; vcore::recip bisection) or one beside it; complete enumeration of all numerators of 1..=4 limbs x divisors of 1..=3 limbs over {0,1,2^63,MAX-1,MAX} for algorithms::div; each specialised kernel only on its documented domain; reciprocals on all 256 table rows (start, start+1, end, end-1, 3 scattered) x 6 low limbs, enumerated, plus a dense fixed sample of 2^20 divisors per table row (rule reciprocal_dense_rows, 2.7e8 single-limb reciprocals against u128 division), plus generated, half of the generated reciprocal_2 arguments solved onto the last correction step's tie (classes recip2:tie_*), one in five on a step edge of the reciprocal function itself (d = floor((2^192-1)/(2^64+v)) +- 2, likewise floor((2^128-1)/(2^64+v)) for the single-limb reciprocal). Oracle: num-bigint / u128 quotient and remainder; floor((2^128-1)/d)-2^64 and floor((2^192-1)/d)-2^64. Non-trivial: divisor >= 2 limbs after trimming and non-zero quotient (div), >= 2 numerator limbs (n-by-1), non-zero quotient (n-by-2, n-by-m), every case for the fixed-size kernels and reciprocals (all inputs are normalised by construction); distinct by inputs. div_3x2_ref is excluded: its own doc comment says it is off by one.",
         assumptions: vec![
             "num-bigint and u128 division are correct (oracle)",
             "div_nxm_normalized is exercised only on the shape len(numerator)=len(divisor)+len(quotient), len(quotient)>=1, the shape used by the repository's own tests (DESIGN 4 C14)",
